@@ -75,7 +75,7 @@ def _reduce(x, axis, F, name):
     def fn(*ix):
         v = idx.fresh_idx("mx")
         full = list(ix[:ax]) + [v] + list(ix[ax:])
-        return [Ent([], F(z3.IntVal(0), iterm(n), z3.Lambda([v], one(x, *full))))]
+        return [Ent([], F(z3.IntVal(0), iterm(n), idx.canon_lambda(v, one(x, *full))))]
     return IArr(shape, fn, x.dtype)
 
 
@@ -96,7 +96,7 @@ def _any(x, axis=None):
     while t.ndim > 1:
         t = _reduce(t, t.ndim - 1, MAXF, "any")
     v = idx.fresh_idx("an")
-    return SBool(ANYF(z3.IntVal(0), iterm(t.shape[0]), z3.Lambda([v], one(t, v))))
+    return SBool(ANYF(z3.IntVal(0), iterm(t.shape[0]), idx.canon_lambda(v, one(t, v))))
 
 
 def _maximum(a, b):
